@@ -12,10 +12,11 @@ PALETTE = ["#000001", "#000002", "#000003", "#000004"]
 COMMITS = {1: "ea82f2d0", 2: "^b2257cf", 3: "0123abcd", 4: "fedc9876"}
 AUTHORS = {1: "Dan Davison", 2: "Ann Other 世界", 3: "Zoë", 4: "Émile de la Tour-Grande"}
 # long names made of (or ending in) double-width characters: the author column cuts them by characters
-AUTHORS_WIDE = {1: "山田太郎左衛門尉景元", 2: "Kangwook Lee (이강욱)", 3: "Zoë", 4: "田中鈴木佐藤高橋渡辺伊藤山本中村"}
+AUTHORS_WIDE = {1: "山田太郎左衛門尉景元", 2: "Kangwook Lee (이강욱)", 3: "Z", 4: "田中鈴木佐藤高橋渡辺伊藤山本中村"}     # (3: a one-character name)
 TIMES = {1: "2021-08-22 18:20:19 -0700", 2: "2020-01-02 03:04:05 +0100", 3: "1999-12-31 23:59:59 +0000",
          4: "2022-02-28 00:00:01 +1345"}
-CODES = ["    let x = 1;", "", "\tfn main() { 世界 }", "}", " // note: (not a blame) 12)", "x" * 30]
+CODES = ["    let x = 1;", "", "\tfn main() { 世界 }", "}", " // note: (not a blame) 12)", "x" * 30,
+         "// see (Bob 2020-01-01 00:00:00 +0000 12) for details", "f(a) (X 1999-12-31 23:59:59 -0100 7)"]
 FORMATS = {
     "default": [],
     "commit-first": ["--blame-format", "{commit:<9} {author:<12.11} {timestamp:<25}"],
